@@ -2,6 +2,6 @@ From Coq Require Import Extraction ExtrOcamlBasic.
 From CV Require Import Base.Num C14.SharedModel.
 Extraction Language OCaml.
 (* mkNumOps only because the shared OCaml prelude ocaml/fops.ml defines the float instance of NumOps *)
-Extraction "model.ml" mkNumOps mkGrpOps upd_nth mkW grid0 w_init w_sample share_due exchange w_restart w_restart_old
+Extraction "model.ml" mkNumOps mkGrpOps upd_nth mkW grid0 w_init w_sample share_due exchange Committed exchange_partial own_data w_restart w_restart_old
   ESample apply_ev run init czar_gather mkEW czar_gather_step ASample sstep srun sinit all_idle walkers_of project opes_run opes_sums
   mkHill mkSF mkWr mkM wr_init share m_unsync PDeposit pstep prun pinit file_fresh ev_ok trace_ok prefixb visible SDeposit sys_step sys_run sys_init pair_of pproj sys_ok.
